@@ -1131,10 +1131,14 @@ class TrajectoryStore:
         if self.mode == self.FileMode.APPEND:
             self._next_index = len(base_nc_file.traj_dim[0])
 
-        # Set up index information.
+        # Set up index information. An existing file has already fixed whether
+        # or not the store is indexable: additions in APPEND mode must follow
+        # what the file contains.
         if '_index' in base_nc_file.dataset[0].groups:
             self.index_group = base_nc_file.dataset[0].groups['_index']
             self.indexable = True
+        else:
+            self.indexable = False
 
         # Open any associated NetCDF files.
         for name in self.associated_files:
